@@ -279,3 +279,53 @@ Theorem ds2ip_linear_code : forall contains K geo named pts p q1 q2 a b M1 M2,
   DS2IP ROps contains K SourcesKernels.code_kpot geo named pts [(p, plc a b q1 q2)] = Some (lcM a b M1 M2).
 Proof. exact SourcesKernels.ds2ip_linear_code. Qed.
 Print Assumptions ds2ip_linear_code.
+
+(* ---------------- SurfSourceMat and EITSourceMat (Geom/SurfEIT.v): column structure, any instance, any kernels ----------------
+   Both functions fill a zero matrix by `mat(r,c) += x` writes; the model is the program-order list of writes applied to a
+   matrix state.  The amplitudes of the sources multiply the columns afterwards (the operators are matrices), so linearity in
+   the amplitudes is matrix algebra; what the loops could get wrong is which writes reach which column. *)
+From OM Require Geom.SurfEIT Geom.SurfEITProofs.
+Section SurfEITProps.
+Context {F : Type} (o : Ops F).
+
+(* column j of the filled matrix = the writes addressed to column j applied to a zero column, in program order *)
+Theorem run_writes_col : forall nrows ncols (ws : list (SurfEIT.write (F:=F))) j, (j < ncols)%nat ->
+  nth j (SurfEIT.run_writes o nrows ncols ws) [] = SurfEIT.run_col o nrows ws j.
+Proof. exact (SurfEITProofs.run_writes_col o). Qed.
+
+Variable TM : nat -> nat -> F.       (* transmat of EITSourceMat: built from the geometry before the electrodes are looked at *)
+(* column k of EITSourceMat = column 0 of EITSourceMat for electrode k alone; re-indexing the electrodes re-indexes columns *)
+Theorem eit_column_local : forall size (es : list (SurfEIT.electrode (F:=F))) k, (k < length es)%nat ->
+  nth 0 (SurfEIT.EIT o TM size [nth k es []]) [] = nth k (SurfEIT.EIT o TM size es) [].
+Proof. exact (SurfEITProofs.eit_column_local o TM). Qed.
+
+Theorem eit_reindex : forall size (es : list (SurfEIT.electrode (F:=F))) (p : list nat) k,
+  (forall i, In i p -> (i < length es)%nat) -> (k < length p)%nat ->
+  nth k (SurfEIT.EIT o TM size (map (fun i => nth i es []) p)) [] = nth (nth k p 0%nat) (SurfEIT.EIT o TM size es) [].
+Proof. exact (SurfEITProofs.eit_reindex o TM). Qed.
+
+Variable ST : Type.
+Variable st_v : ST -> nat * nat * nat.
+Variable NV : nat -> nat -> nat -> list ST -> F.
+Variable DV : nat -> nat -> ST -> pt (F:=F).
+Variable K : F.
+(* column j of SurfSourceMat depends on the source mesh only through the source triangles around source vertex j *)
+Theorem ssm_column_star : forall size cond bounds nsv (src src' : list ST) j, (j < nsv)%nat ->
+  SurfEIT.star ST st_v src j = SurfEIT.star ST st_v src' j ->
+  nth j (SurfEIT.SSM o ST st_v NV DV K size cond bounds nsv src) [] = nth j (SurfEIT.SSM o ST st_v NV DV K size cond bounds nsv src') [].
+Proof. exact (SurfEITProofs.ssm_column_star o ST st_v NV DV K). Qed.
+
+(* only vertex rows of the meshes bounding the source's domain and triangle rows of those that are not current barriers are
+   written (the barrier guard is the repaired code: before the fix SurfSourceMat wrote rows beyond the matrix) *)
+Theorem ssm_rows : forall cond bounds nsv (src : list ST) w,
+  In w (SurfEIT.ssm_writes o ST st_v NV DV K cond bounds nsv src) ->
+  exists b om, In b bounds /\ In om (SurfEIT.bb_meshes b) /\
+    (In (SurfEIT.wrow w) (SurfEIT.bm_verts (SurfEIT.bo_mesh om)) \/
+     (SurfEIT.bm_barrier (SurfEIT.bo_mesh om) = false /\ In (SurfEIT.wrow w) (SurfEIT.bm_tris (SurfEIT.bo_mesh om)))).
+Proof. exact (SurfEITProofs.ssm_rows o ST st_v NV DV K). Qed.
+End SurfEITProps.
+Print Assumptions run_writes_col.
+Print Assumptions eit_column_local.
+Print Assumptions eit_reindex.
+Print Assumptions ssm_column_star.
+Print Assumptions ssm_rows.
